@@ -7,38 +7,50 @@
      crypto/secure_session.go:66-88 Encrypt: per frame nonce = s.encryptCount; s.encryptCount++  (a read and a write)
      ip_transport.go:261-291        notifications are written from the goroutine that changed the value
      hap/keep_alive.go:41-54        keep-alive writer
-   Writers: the HTTP response of a request, event notifications, keep-alives.  A guard in Weak is MISSING. *)
+   Writers: the HTTP response of a request, event notifications, keep-alives.  A guard in Weak is MISSING.
+
+   A payload of several frames is sealed and written in ONE critical section (guard payload_in_one_critical_section):
+   a writer that gave the lock back after PieceLen frames and took it again for the next ones (a "memory saving" chunked
+   write) lets another writer's frames in between - every frame opens, the counters are in order, and the payload is torn. *)
 EXTENDS Naturals, Sequences, FiniteSets, TLC
-CONSTANTS Writer, NFrames, Weak
+CONSTANTS Writer, NFrames, Weak,
+          PieceLen   \* frames per critical section when payload_in_one_critical_section is missing
 VARIABLES ctr,    \* the session's frame counter
           pc,     \* [Writer -> "idle" | "load" | "store" | "sealed" | "done"]
           mine,   \* [Writer -> sequence of counters its frames were sealed under]
           tmp,    \* [Writer -> the counter value it has read]
           sock,   \* frames as they hit the socket: sequence of [w, c]
+          out,    \* [Writer -> number of its frames that are on the socket]
           lock,   \* "free" or the writer holding the write lock
           act
-vars == <<ctr, pc, mine, tmp, sock, lock, act>>
+vars == <<ctr, pc, mine, tmp, sock, out, lock, act>>
 Locked == "lock_around_encrypt_and_write" \notin Weak
+OneSection == "payload_in_one_critical_section" \notin Weak
+\* the number of frames the writer has sealed when it goes to the socket
+Quota(w) == IF OneSection \/ out[w] + PieceLen > NFrames[w] THEN NFrames[w] ELSE out[w] + PieceLen
 
 Init == /\ ctr = 0 /\ pc = [w \in Writer |-> "idle"] /\ mine = [w \in Writer |-> <<>>]
-        /\ tmp = [w \in Writer |-> 0] /\ sock = <<>> /\ lock = "free" /\ act = <<"none", "none">>
+        /\ tmp = [w \in Writer |-> 0] /\ sock = <<>> /\ out = [w \in Writer |-> 0] /\ lock = "free" /\ act = <<"none", "none">>
 
 \* enter EncryptedWrite (take the lock when there is one)
 Begin(w) == /\ pc[w] = "idle" /\ (Locked => lock = "free")
             /\ lock' = IF Locked THEN w ELSE lock
-            /\ pc' = [pc EXCEPT ![w] = "load"] /\ act' = <<"Begin", w>> /\ UNCHANGED <<ctr, mine, tmp, sock>>
+            /\ pc' = [pc EXCEPT ![w] = "load"] /\ act' = <<"Begin", w>> /\ UNCHANGED <<ctr, mine, tmp, sock, out>>
 \* s.encryptCount is read ...
 Load(w) == /\ pc[w] = "load" /\ tmp' = [tmp EXCEPT ![w] = ctr]
-           /\ pc' = [pc EXCEPT ![w] = "store"] /\ act' = <<"Load", w>> /\ UNCHANGED <<ctr, mine, sock, lock>>
+           /\ pc' = [pc EXCEPT ![w] = "store"] /\ act' = <<"Load", w>> /\ UNCHANGED <<ctr, mine, sock, out, lock>>
 \* ... and written back incremented; the frame is sealed under the value read
 Store(w) == /\ pc[w] = "store" /\ ctr' = tmp[w] + 1
             /\ mine' = [mine EXCEPT ![w] = Append(@, tmp[w])]
-            /\ pc' = [pc EXCEPT ![w] = IF Len(mine[w]) + 1 = NFrames[w] THEN "sealed" ELSE "load"]
-            /\ act' = <<"Store", w>> /\ UNCHANGED <<tmp, sock, lock>>
-\* one Write of the whole sealed buffer to the socket (contiguous by net.Conn's own write lock)
+            /\ pc' = [pc EXCEPT ![w] = IF Len(mine[w]) + 1 = Quota(w) THEN "sealed" ELSE "load"]
+            /\ act' = <<"Store", w>> /\ UNCHANGED <<tmp, sock, out, lock>>
+\* one Write of the whole sealed buffer to the socket (contiguous by net.Conn's own write lock); a writer that has more to
+\* seal (only without payload_in_one_critical_section) gives the lock back and enters again
 SockWrite(w) == /\ pc[w] = "sealed"
-                /\ sock' = sock \o [i \in 1..Len(mine[w]) |-> [w |-> w, c |-> mine[w][i]]]
-                /\ pc' = [pc EXCEPT ![w] = "done"] /\ lock' = IF Locked THEN "free" ELSE lock
+                /\ sock' = sock \o [i \in 1..(Len(mine[w]) - out[w]) |-> [w |-> w, c |-> mine[w][out[w] + i]]]
+                /\ out' = [out EXCEPT ![w] = Len(mine[w])]
+                /\ pc' = [pc EXCEPT ![w] = IF Len(mine[w]) = NFrames[w] THEN "done" ELSE "idle"]
+                /\ lock' = IF Locked THEN "free" ELSE lock
                 /\ act' = <<"SockWrite", w>> /\ UNCHANGED <<ctr, mine, tmp>>
 Next == \E w \in Writer : Begin(w) \/ Load(w) \/ Store(w) \/ SockWrite(w)
 Spec == Init /\ [][Next]_vars
@@ -46,5 +58,5 @@ Spec == Init /\ [][Next]_vars
 \* ---- C08: the peer opens frame i with counter i-1
 InOrder == \A i \in 1..Len(sock) : sock[i].c = i - 1
 Contiguous == \A i, j \in 1..Len(sock) : (i < j /\ sock[i].w = sock[j].w) => \A k \in i..j : sock[k].w = sock[i].w
-View == <<ctr, pc, mine, tmp, sock, lock>>
+View == <<ctr, pc, mine, tmp, sock, out, lock>>
 =======================================================================
